@@ -735,6 +735,11 @@ def n_r8_cookies(p: Project, rep: Report):
         recv = root_name(s.func)
         uses = [n for n in pcfg.nodes if any(isinstance(x, ast.Attribute) and text(x) == "self.cookiejar" for e in n.exprs() for x in ast.walk(e))]
         ok = bool(uses) and pcfg.dominated_by(node.id, [u.id for u in uses], edge_filter=flt)
+        # the requests transport: a jar passed as `cookies=` of a single call is only SENT; what the server sets goes
+        # into the session's own jar and is thrown away with it - the jar has to BE the session's (sess.cookies = jar)
+        kwjar = next((k_ for k_ in s.keywords if k_.arg == "cookies" and "cookiejar" in text(k_.value)), None) if isinstance(s, ast.Call) else None
+        if kwjar is not None:
+            rep.check("N-R8", f"post_request:{text(s.func)}:jar-receives-what-the-server-sets", False, f"{text(s.func)}(..., cookies={text(kwjar.value)[:40]}): the jar is only read for this one request; cookies set by the response are stored in the library's internal session jar and discarded, so they are not replayed on the client's later requests", loc(p, s))
         rep.check("N-R8", f"post_request:{text(s.func)}:attaches-jar", ok, "with persist_cookies set this transport can send the request without self.cookiejar attached" if not ok else "", loc(p, s))
         # and the jar use is connected to the sending object
         if ok:
